@@ -124,6 +124,14 @@ class MonitoredTarget:
         return out
 
 
+class ValueTokenTarget(MonitoredTarget):
+    """A target whose dask token is derived from its content, like a NumPy array's."""
+
+    def __dask_tokenize__(self):
+        from dask.tokenize import normalize_token
+        return ("ValueTokenTarget", normalize_token(self.data))
+
+
 # ---------------------------------------------------------------------------------------------
 # case stream
 # ---------------------------------------------------------------------------------------------
@@ -170,7 +178,7 @@ def cases(tier, seed):
         nsrc = rng.choice((1, 1, 1, 2, 2, 3))
         variant = "plain"
         if nsrc >= 2:
-            variant = rng.choice(("plain", "plain", "same-source-twice", "two-into-one-target"))
+            variant = rng.choice(("plain", "plain", "same-source-twice", "two-into-one-target", "same-source-equal-targets"))
         srcs = []
         base_shape = A.rand_shape(rng, maxnd=3, maxlen=7)
         for j in range(nsrc):
@@ -197,6 +205,14 @@ def cases(tier, seed):
                     s["region"], s["tshape"] = [[0, nn, None] for nn in s["shape"]], list(s["shape"])
                 else:
                     s["region"], s["tshape"] = _region(rng, s["shape"], rk)
+        if variant == "same-source-equal-targets":
+            # the same source into distinct targets that start out with equal content and tokenize by value, as
+            # freshly allocated NumPy arrays do
+            for s in srcs[1:]:
+                s.update({k: srcs[0][k] for k in ("shape", "dtype", "c", "seed", "rk", "region", "tshape", "wide")})
+                s["same_as_first"] = True
+            for s in srcs:
+                s["value_token"] = True
         if variant == "two-into-one-target":
             # one target, the sources are written side by side along a new leading split of axis 0
             srcs = srcs[:2]
@@ -270,7 +286,7 @@ def _run_store(case, ctx):
             tdt = s["dtype"]
             if s["wide"] and np.dtype(tdt).kind in "iu":
                 tdt = "float64"
-            t = MonitoredTarget(s["tshape"], tdt)
+            t = (ValueTokenTarget if s.get("value_token") else MonitoredTarget)(s["tshape"], tdt)
         datas.append(x)
         sources.append(dx)
         targets.append(t)
